@@ -1,10 +1,27 @@
 """C15: multi-site edit commands of the gts CLI (spec/Cli.tla)."""
 from fam_generic import Family, run_family
 
+ALL_CMDS = ["delete", "insert", "infix", "split", "rotate", "extract"]
+
+
+def cli_family(name, cmds, quick_stride=3, thorough_stride=1, fasta_only=False, owns=None):
+    """The multi-site command family restricted to some commands (the property checks whose statements name
+    command-line output drive 'their' commands through this family)."""
+    def C(stride):
+        return dict(consts=dict(Stride=stride, Offset=0, CmdSet=list(cmds), FastaOnly=fasta_only), mc=False)
+    return Family(
+        name, "MC_Cli", "Trace_Cli", "cli", needs_gts=True, invariant=None, case_fam=None, owns=owns,
+        rounds={"quick": [C(quick_stride)], "thorough": [C(thorough_stride)]},
+        rule_text=("command-line clause (%s%s): generated 10-bp records x locators x options; the gts binary built from the "
+                   "tree is run, input and output parsed with seqio and judged by Cli.tla in input coordinates; every case also "
+                   "on the record given twice" % (", ".join(cmds), ", -F fasta only" if fasta_only else "")),
+        assumptions=["locators whose regions leave [0,L] are outside the quantifier and not judged"])
+
+
 FAM = Family(
     "cli", "MC_Cli", "Trace_Cli", "cli", needs_gts=True, invariant=None,
-    rounds={"quick": [dict(consts=dict(Stride=3, Offset=0), mc=False)],
-            "thorough": [dict(consts=dict(Stride=1, Offset=0), mc=False)]},
+    rounds={"quick": [dict(consts=dict(Stride=3, Offset=0, CmdSet=ALL_CMDS, FastaOnly=False), mc=False)],
+            "thorough": [dict(consts=dict(Stride=1, Offset=0, CmdSet=ALL_CMDS, FastaOnly=False), mc=False)]},
     rule_text=("one case = one run of the gts binary: a generated 10-bp record (three tables with overlapping, nested, "
                "unsorted, duplicated and end-touching features on both strands; linear and circular) x a locator (selector "
                "matching 0..k features, point, range, complement range, all features; optionally one of six modifiers; bare "
